@@ -435,6 +435,10 @@ def probe_layer(ctx):
               lambda a, b: len(a) == len(b) and all(type(x) is type(y) and x.dtype == y.dtype and x.shape == y.shape
                                                     and np.array_equal(np.ma.filled(x, 99), np.ma.filled(y, 99)) for x, y in zip(a, b))),
              ('partial-load', 'container', lambda: {'a': [1, 2, {'b': (3, 4)}]}, None),
+             # ranges with a step other than 1 (the model's IntVals = {0, 1} only reach step 1), shared twice
+             ('ranges', 'container', lambda: (lambda r: [range(1, 10, 3), range(5, -1, -2), range(0), r, {'again': r}])(range(2, 9, 2)),
+              lambda a, b: len(a) == len(b) and all(type(y) is range and (x.start, x.stop, x.step) == (y.start, y.stop, y.step)
+                                                    for x, y in zip(a[:4], b[:4])) and b[4]['again'] is b[3]),
              # an unmasked array whose entries all equal the fill value must not come back masked
              ('masked-fill-collision', 'container',
               lambda: [np.ma.MaskedArray([999999, 999999]), np.ma.MaskedArray([999999, 5], mask=[False, True]),
